@@ -293,6 +293,9 @@ func runC09(c *Check, a *Analysis) {
 
 	ruleUpgradeOwner(c, a, "R-UPGRADE-OWNER")
 	ruleStreamCtxStable(c, a, "R-STREAM-CTX-STABLE")
+	ruleStreamSeqAssigned(c, a, "R-STREAM-SEQ")
+	ruleReaderTotal(c, a, "R-READER-TOTAL")
+	ruleCopyDestFresh(c, a, "R-COPY-DEST-FRESH")
 	// the stream's single long-lived Call is a shared slot: per-message data must not cross the queue hop in it
 	c.Rule("R-STREAM-SLOT", "when a stream message is delivered through a queued task, the message bytes are stored into the stream's shared Call only inside that task (never by the reader before queueing): the reader would overwrite the slot with the next message before the worker delivers the previous one", 1)
 	for _, l := range pendingOps(p, "lookup") {
@@ -388,6 +391,7 @@ func runC10(c *Check, a *Analysis) {
 	p := c.P
 	ls := a.Locks()
 	sc := siteCounter{}
+	ruleLockBalance(c, a, "R-LOCK-BALANCE", "stream.mut", "Conn.mutex", "Server.mutex")
 
 	ruleStop(c, a, "R-STOP")
 
